@@ -499,6 +499,11 @@ def _getChild_done(child, parent):
 
 def _getChild_failed(reason):
     text, code = humanize_failure(reason)
+    if code is None:
+        # an exception humanize_failure has no status for (NotWriteableError
+        # from a traversal that tries to create a directory, ...): without a
+        # code ErrorPage.render fails and the client gets no status line
+        code = http.INTERNAL_SERVER_ERROR
     return resource.ErrorPage(code, "Error", text)
 
 
